@@ -29,7 +29,7 @@ if not pkgdir:
 dst = os.path.join(wt, pkgdir, "zz_mutant_demo_test.go")
 res = {}
 try:
-    sh("git checkout -q -- . && git clean -fdq")
+    sh("git checkout -q -- . && git clean -fdq -e _out")
     rc, out = sh("git apply %s" % os.path.join(mdir, "patch.diff")); assert rc == 0, out
     rc, out = sh("go build ./..."); res["build"] = rc == 0; assert rc == 0, out[-2000:]
     rc, out = sh("go test -vet=off -count=1 %s" % " ".join(pkgs)); res["existing_tests_pass"] = rc == 0; assert rc == 0, out[-3000:]
@@ -40,7 +40,7 @@ try:
     rc, out = sh("go test -vet=off -count=1 -run '%s' ./%s/" % (runpat, pkgdir)); res["demo_passes_without_change"] = rc == 0
     assert rc == 0, "demo fails without change:\n" + out[-3000:]
 finally:
-    sh("git checkout -q -- . && git clean -fdq")
+    sh("git checkout -q -- . && git clean -fdq -e _out")
 out = os.path.join("/verif/seeded", sid)
 os.makedirs(out, exist_ok=True)
 shutil.copy(os.path.join(mdir, "patch.diff"), out)
